@@ -395,7 +395,6 @@ func (f *fn) stmts(list []ast.Stmt, k, ind string) string {
 	return f.bad(fmt.Sprintf("stmt %T", list[0]))
 }
 
-
 // bindCall: let '(updated args..., results...) := term in <follow-ups> rest
 func (f *fn) bindCall(term string, ks []kind, muts []string, lhs []ast.Expr, define bool, mode int, rest func() string, ind string) string {
 	var pats []string
@@ -872,6 +871,14 @@ func (f *fn) typeSwitch(s *ast.TypeSwitchStmt, rest func() string, ind string) s
 		}
 		if len(cc.List) != 1 {
 			return f.bad("type switch clause with several types")
+		}
+		if mt, ok := cc.List[0].(*ast.MapType); ok && ident(mt.Key) == "any" && ident(mt.Value) == "any" {
+			// map[any]any (a yaml mapping with a non-string key) has no constructor of its own in the
+			// model: such a value is represented as the list of its [key; value] pairs, so this clause
+			// is not translated; it is tied by the correspondence runs only (documents with int / bool /
+			// float / null keys), see design_notes/C03.md
+			f.skipped = append(f.skipped, "case map[any]any of the type switch")
+			continue
 		}
 		kd := f.typeKind(cc.List[0])
 		inj := map[kind]string{kMap: "Mp", kSlice: "Lst", kString: "Str"}[kd]
